@@ -54,23 +54,28 @@ impl CopySource {
     /// # Errors
     /// Returns an error if the header is invalid
     pub fn parse(header: &str) -> Result<Self, ParseCopySourceError> {
-        let header = urlencoding::decode(header).map_err(|_| ParseCopySourceError::InvalidEncoding)?;
-        let header = header.strip_prefix('/').unwrap_or(&header);
+        let decode = |s| urlencoding::decode(s).map_err(|_| ParseCopySourceError::InvalidEncoding);
+
+        // The `?versionId=` separator is not percent-encoded.
+        // Split it off before decoding, so that an encoded `?` stays part of the key.
+        let (path, version_id) = match header.split_once('?') {
+            Some((path, remaining)) => {
+                let version_id = remaining
+                    .split_once('=')
+                    .and_then(|(name, val)| (name == "versionId").then_some(val));
+                (path, version_id)
+            }
+            None => (header, None),
+        };
+
+        let path = decode(path)?;
+        let path = path.strip_prefix('/').unwrap_or(&path);
+        let version_id = version_id.map(decode).transpose()?;
 
         // FIXME: support access point
-        match header.split_once('/') {
+        match path.split_once('/') {
             None => Err(ParseCopySourceError::PatternMismatch),
-            Some((bucket, remaining)) => {
-                let (key, version_id) = match remaining.split_once('?') {
-                    Some((key, remaining)) => {
-                        let version_id = remaining
-                            .split_once('=')
-                            .and_then(|(name, val)| (name == "versionId").then_some(val));
-                        (key, version_id)
-                    }
-                    None => (remaining, None),
-                };
-
+            Some((bucket, key)) => {
                 if !path::check_bucket_name(bucket) {
                     return Err(ParseCopySourceError::InvalidBucketName);
                 }
@@ -93,9 +98,11 @@ impl CopySource {
         let mut buf = String::new();
         match self {
             CopySource::Bucket { bucket, key, version_id } => {
-                write!(&mut buf, "{bucket}/{key}").unwrap();
+                // percent-encode what `parse` decodes (keeping `/` readable in the key)
+                let key = urlencoding::encode(key).replace("%2F", "/");
+                write!(&mut buf, "{}/{key}", urlencoding::encode(bucket)).unwrap();
                 if let Some(version_id) = version_id {
-                    write!(&mut buf, "?versionId={version_id}").unwrap();
+                    write!(&mut buf, "?versionId={}", urlencoding::encode(version_id)).unwrap();
                 }
             }
             CopySource::AccessPoint { .. } => {
